@@ -271,6 +271,8 @@ class Interp:
             raise Unsupported("binary %s" % op)
         if k == "tuple":
             return tuple(self.ev(x, env, depth) for x in e["es"])
+        if k == "array":
+            return [self.ev(x, env, depth) for x in e["es"]]
         if k == "block":
             env2 = env  # Rust shadowing is by name; good enough for the tabulated fragments (no closures capturing)
             for s in e.get("stmts") or []:
@@ -450,6 +452,22 @@ class Interp:
         # diverging
         if H.diverges(e):
             raise Diverged(c)
+        # for-loop desugaring: IntoIterator::into_iter(x) / Iterator::next(&mut iter)
+        if decl == "core::iter::traits::collect::IntoIterator::into_iter" and e.get("k") == "call":
+            v = self.ev(e["args"][0], env, depth)
+            if isinstance(v, dict) and "__iter" in v:
+                return v
+            if isinstance(v, (list, tuple)) and not (isinstance(v, tuple) and v and v[0] in ("__some", "__closure")):
+                return {"__iter": list(v), "i": 0}
+            raise Unsupported("into_iter of %r" % (v,))
+        if decl == "core::iter::traits::iterator::Iterator::next":
+            v = self.ev(e["recv"] if e.get("k") == "mcall" else e["args"][0], env, depth)
+            if isinstance(v, dict) and "__iter" in v:
+                if v["i"] < len(v["__iter"]):
+                    v["i"] += 1
+                    return ("__some", v["__iter"][v["i"] - 1])
+                return None
+            raise Unsupported("next on %r" % (v,))
         # constructors
         if (e.get("dk") or "").startswith("Ctor"):
             args = [self.ev(a, env, depth) for a in e["args"]]
@@ -551,5 +569,6 @@ def _any(it, recv, args, depth):
 
 
 ITER_BUILTINS = {"chars": _chars, "take": _take, "all": _all, "any": _any,
+                 "enumerate": lambda it, r, a, d: [(i, x) for i, x in enumerate(list(r))],
                  "iter": lambda it, r, a, d: list(r), "into_iter": lambda it, r, a, d: list(r),
                  "skip": lambda it, r, a, d: list(r)[a[0]:], "rev": lambda it, r, a, d: list(reversed(list(r)))}
